@@ -59,7 +59,12 @@ def w1(chk, op):
                     f"{short(e.node, 60)} is reachable from open_alos2 without create_cache being set: opening writes to disk unasked",
                     key=f"{fi.key}:{e.detail}:guard")
         # target provenance
-        target = e.node.func.value if isinstance(e.node.func, ast.Attribute) else (e.node.args[0] if e.node.args else None)
+        if isinstance(e.node, ast.Call):
+            target = e.node.func.value if isinstance(e.node.func, ast.Attribute) else (e.node.args[0] if e.node.args else None)
+        elif isinstance(e.node, ast.Subscript):
+            target = e.node.value
+        else:
+            target = None
         flow = Flow(fi)
         root = target
         while isinstance(root, ast.Attribute) and root.attr in ("parent",):
